@@ -134,9 +134,15 @@ func Resolve(p *an.Prog) *Anchors {
 		if !ok {
 			return false
 		}
+		// keyed by the first byte; the value is a position in the child list or the child itself
 		k, ok1 := m.Key().(*types.Basic)
-		v, ok2 := m.Elem().(*types.Basic)
-		return ok1 && ok2 && k.Kind() == types.Uint8 && v.Kind() == types.Int
+		if !ok1 || k.Kind() != types.Uint8 {
+			return false
+		}
+		if v, ok2 := m.Elem().(*types.Basic); ok2 {
+			return v.Kind() == types.Int
+		}
+		return isPtrTo(m.Elem(), a.NodeT)
 	}, "indexes")
 	a.FHandlers = pick(nodeS, "node", "handler map", func(t types.Type) bool {
 		m, ok := t.(*types.Map)
